@@ -3,7 +3,7 @@ from ..paths import explore, describe, describe_rv, pretty_place, bool_label
 from ..rules import calls_to, calls_where, blocks_of
 from ..facts import callee_path
 
-TEXT = ('Sibling agreement of the wet/dry tail of the five mixing effects (mix clamped to [0,1]; wet·sqrt(mix) + dry·sqrt(1-mix) with dry the unmodified input frame); user parameters reach the stability-critical sinks (tan argument, resonance, q divisors) only through constant-bound clamps; no float division by a value derived from Decibels::as_amplitude (which returns exactly 0.0 at or below -60 dB) without a zero test; may-panic obligations of effect code come from Engine A. Identity, linearity, finiteness and slicing independence as equalities of samples are not decided. Divisions by an amplitude are guarded by a zero test of the very value that divides. Every singular float operation in effect code (division, root, logarithm, power) has its domain proved by interval evaluation or an exact table entry (A.singular). Linearity typing (abstract interpretation of the per-sample code) of filter, EQ filter, delay, reverb, volume and panning control: the input is combined only by sums, differences and products with signal-independent coefficients, no branch tests a signal value, no offset is added; distortion and compressor must come out non-linear (non-vacuity control).')
+TEXT = ('Sibling agreement of the wet/dry tail of the five mixing effects (mix clamped to [0,1]; wet·sqrt(mix) + dry·sqrt(1-mix) with dry the unmodified input frame); user parameters reach the stability-critical sinks (tan argument, resonance, q divisors) only through constant-bound clamps; no float division by a value derived from Decibels::as_amplitude (which returns exactly 0.0 at or below -60 dB) without a zero test; may-panic obligations of effect code come from Engine A. Identity, linearity, finiteness and slicing independence as equalities of samples are not decided. Divisions by an amplitude are guarded by a zero test of the very value that divides. Every singular float operation in effect code (division, root, logarithm, power) has its domain proved by interval evaluation or an exact table entry (A.singular). Linearity typing (abstract interpretation of the per-sample code) of filter, EQ filter, delay, reverb, volume and panning control: the input is combined only by sums, differences and products with signal-independent coefficients, no branch tests a signal value, no offset is added; distortion and compressor must come out non-linear (non-vacuity control); with an all-zero input every effect writes exactly zero (silence to silence from a cleared state).')
 TECHNIQUE = 'MIR operand-flow (taint) and sibling-agreement rules + effect analysis for panics + linearity typing (abstract interpretation) + interval evaluation of singular float operations'
 
 MIXING = ['effect::filter::Filter', 'effect::delay::Delay', 'effect::reverb::Reverb', 'effect::compressor::Compressor',
@@ -240,3 +240,24 @@ def linear(F, R):
             R.bad('B.C13.linear', '%s|%s' % (short, w), '%s is not linear in its input: in %s, %s' % (short, bp, lst[0][2]),
                   where=b.where(lst[0][0]) if b is not None else None)
     R.floor('B.C13.linear', n, 6)
+    # "maps silence to silence from a cleared state": the same typing with the input declared exactly zero - everything the
+    # effect writes back into its input (and, for the six linear effects, into its state) must come out exactly zero, i.e.
+    # be built from the input by zero-preserving steps (x*c, x/c, x+x, clamp across 0, abs, sqrt, ...), never from a
+    # constant or an unknown function.  (0 * inf is excluded by A.singular.)
+    from ..lintype import Z
+    ns = 0
+    for e in LINEAR + NONLINEAR:
+        p = '<%s as effect::Effect>::process' % e
+        if F.body(p) is None:
+            continue
+        L = Lin(F, [p], {p: [2]}, source_class=Z)
+        short = e.split('::')[-1]
+        ns += 1
+        out = L.cls.get((p, 2))
+        dirty = sorted('%s.%s' % k[1:] for k, v in L.cls.items() if k[0] == 'F' and v != Z) if e in LINEAR else []
+        R.check(out == Z and not dirty, 'B.C13.silence', short,
+                '%s does not map silence to silence from a cleared state: with an all-zero input its output is %s%s (a constant or an '
+                'unknown function of zero reaches the signal)' % (short, NAMES.get(out, '?'), (', state ' + ', '.join(dirty)) if dirty else ''),
+                detail={'output': NAMES.get(out, '?'), 'state': sorted('%s.%s=%s' % (k[1].split('::')[-1], k[2], NAMES[v]) for k, v in L.cls.items() if k[0] == 'F')},
+                where=F.body(p).file)
+    R.floor('B.C13.silence', ns, 8)
